@@ -298,7 +298,9 @@ func c10HSpec(tier string) *HSpec {
 	if tier == "thorough" {
 		depth = 5
 	}
-	alpha := []string{"deploy s1 h=a.example.com p=/", "rdeploy s1 n=1", "rdeploy s1 n=2", "rset s1 pct=0 allow=v", "rset s1 pct=100 allow=-", "rset s1 pct=0 allow=-", "rstop s1", "remove s1", "restart"}
+	alpha := []string{"deploy s1 h=a.example.com p=/", "rdeploy s1 n=1", "rdeploy s1 n=2", "rset s1 pct=0 allow=v", "rset s1 pct=100 allow=-", "rset s1 pct=0 allow=-", "rstop s1", "remove s1", "restart",
+		// failing commands in the middle of a history: the split and the rollout targets must survive them
+		"rdeploy s1 n=1 bad=unhealthy-all", "deploy s1 h=a.example.com p=/ bad=unhealthy-all"}
 	// ExtendFailed: a rejected command (split before rollout targets exist, unknown service) must not influence what follows
 	spec := &HSpec{Prop: "C10", Name: "C10-H", Depth: depth, ExtendFailed: true,
 		Obs:     ObsSpec{Hosts: []string{"a.example.com"}, Paths: []string{"/"}, Cookies: []string{"", "v", "w"}, TLS: []bool{false}},
